@@ -313,7 +313,9 @@ def build_item(src, spec, idx, log):
         for l in lines:
             mo = re.match(r'\s*//@\?([A-Za-z_][A-Za-z0-9_]*)\s(.*)$', l)
             if mo:
-                if re.search(r'(?<![A-Za-z0-9_])%s(?![A-Za-z0-9_])' % re.escape(mo.group(1)), mask(text)):
+                nm = re.escape(mo.group(1))
+                # the name must be *bound* in the function (let / parameter / closure parameter / pattern), not merely occur
+                if re.search(r'(?:let\s+(?:mut\s+)?\(?|[(,|]\s*(?:mut\s+)?|Some\(|Ok\()%s\s*[:=,)|]' % nm, mask(text)):
                     keep.append(mo.group(2))
                 else:
                     log['subs'].append({'item': what, 'from': 'hint on `%s`' % mo.group(1), 'to': '(dropped: identifier no longer in the function)', 'count': 1})
